@@ -491,6 +491,7 @@ def run(ck, facts, tier):
     c05.rule_branch_accounting(ck, facts)
     c05.rule_cursor(ck, facts)
     c12.rule_predicate_recursion(ck, facts)
+    c12.rule_release_order(ck, facts)
     c12.rule_vm_walker_offsets(ck, facts)  # a walker that skips an element releases a live box: use after free
     rule_type_substitution(ck, facts)
     guards.run(ck, facts, "C03.guarded-index", ["mimium_lang", "state_tree", "mimium_scheduler", "mimium_audiodriver"])
